@@ -101,6 +101,15 @@ func c02() {
 					ents = append(ents, seccomp.NameWithConditions{Name: other, Conditions: seccomp.ArgumentConditions{{Argument: uint32(x % 6), Operation: vlib.AllOps[x%8], Value: uint64(x)*0x100000001 + 3}}})
 				}
 				ents = append(ents, p.Syscalls[0].NamesWithCondtions[0])
+				// and in front of 0..69 further entries of all sizes: the distance from the judged condition to the group's
+				// return sweeps the values around the 8-bit limit
+				for x, m := 0, (ji/45)%70; x < m; x++ {
+					other := j.t.Names[(ji*7+300+x)%len(j.t.Names)]
+					if other == name {
+						continue
+					}
+					ents = append(ents, seccomp.NameWithConditions{Name: other, Conditions: seccomp.ArgumentConditions{{Argument: uint32((x + ji) % 6), Operation: vlib.AllOps[(x+ji/7)%8], Value: uint64(x)*0x100000001 + 5}}})
+				}
 				p.Syscalls[0].NamesWithCondtions = ents
 				run.Count("entries_judged_inside_a_large_group", 1)
 			}
